@@ -15,7 +15,9 @@ PLAN = {
                                                     ("BFS_Snap", 0, 60000, 8, False),
                                                     # every short history of re-creating / updating one subscription name with other filters
                                                     ("BFS_Recreate", 0, 0, 6, False)]},
-    "C02": {"mc": ["MC_Lease", "MC_Names"], "gen": [("Gen_Mixed", 160, 4000, 25, True), ("Gen_Names", 60, 1500, 32, True), ("Gen_Snap", 60, 1500, 30, True), ("BFS_Recreate", 0, 0, 6, False), ("BFS_RecreateTopic", 0, 0, 6, False)]},
+    "C02": {"mc": ["MC_Lease", "MC_Names"], "gen": [("Gen_Mixed", 160, 4000, 25, True), ("Gen_Names", 60, 1500, 32, True), ("Gen_Snap", 60, 1500, 30, True), ("BFS_Recreate", 0, 0, 6, False), ("BFS_RecreateTopic", 0, 0, 6, False),
+                                                    # dead-letter forwarding onto filtered / ordered subscriptions
+                                                    ("Gen_DeadLetter", 60, 1500, 32, True)]},
     "C03": {"mc": ["MC_Lease", "MC_DeadLetter"], "gen": [("Gen_Mixed", 120, 3000, 25, True), ("Gen_Ordered", 60, 1500, 30, True), ("Gen_DeadLetter", 60, 1500, 32, True),
                                                          # every short history of publish / pull / ack / sweep / clock step on a dead-lettering subscription
                                                          ("BFS_DLAck", 0, 0, 9, False)]},
@@ -27,7 +29,9 @@ PLAN = {
                                                      ("Gen_StreamLease", 120, 3000, 22, False, 1000)]},
     "C05": {"mc": ["MC_Ordered"], "impl": ["MC_ImplSnap"], "impl_thorough": ["MC_ImplSnap_thorough", "MC_ImplSeek"], "gen": [("Gen_Ordered", 240, 6000, 30, True), ("Gen_Mixed", 80, 2000, 25, True),
                                                                                                                             # every short history of keyed publishes / pulls / acks / full rewinds on one ordered subscription
-                                                                                                                            ("BFS_Ordered", 0, 0, 8, False)]},
+                                                                                                                            ("BFS_Ordered", 0, 0, 9, False),
+                                                                                                                            # ... and of pulls / acks / rewinds over two same-key messages already published
+                                                                                                                            ("BFS_Ordered2", 0, 0, 11, False)]},
     "C06": {"mc": ["MC_DeadLetter"], "gen": [("Gen_DeadLetter", 240, 6000, 32, True), ("Gen_Mixed", 60, 1500, 25, True), ("BFS_DL", 0, 0, 8, False),
                                              # shared dead-letter targets: fan-in of two sources, self-loop
                                              ("BFS_DLFan", 0, 0, 11, False),
